@@ -592,6 +592,12 @@ fn check_exec_encoders(case: &ExecEncCase, ctx: &mut CaseCtx<'_>) -> Result<(), 
 // ---------------------------------------------------------------------------------------
 
 #[derive(Clone, Debug, Serialize, Deserialize)]
+struct SizeCase {
+    kind: String,
+    n: usize,
+}
+
+#[derive(Clone, Debug, Serialize, Deserialize)]
 struct ChildCase {
     kind: String,
     n: u64,
@@ -894,12 +900,68 @@ fn main() {
                 1 => Just(vec![b"PING".to_vec()]),
                 1 => Just(vec![b"NOSUCHCMD".to_vec(), b"x".to_vec()]),
                 1 => Just(vec![b"FOO\r\n+BAR".to_vec()]),
+                // client text with a bare CR / bare LF quoted in an error line
+                1 => prop_oneof![
+                    Just(b"FOO\rBAR".to_vec()), Just(b"FOOBAR\r".to_vec()), Just(b"A\nB".to_vec()),
+                    Just(b"\rX".to_vec()), Just(b"X\n".to_vec()), Just(b"A\r\rB".to_vec()),
+                ].prop_map(|n| vec![n, b"arg".to_vec()]),
                 1 => Just(vec![b"GET".to_vec()]),
             ];
             proptest::collection::vec(cmd, 1..12).prop_map(|cmds| ExecEncCase { cmds })
         },
         check_exec_encoders,
     );
+
+    // ---- (d2) size classes: line and bulk lengths aimed at powers of two +- 1
+    s.describe_check(
+        "size_classes",
+        "status / error / integer-prefixed / bulk / array frames whose text or element count is 2^k-1, 2^k, 2^k+1 for k up to 20 (16 for arrays): both decoders on the whole frame and on splits, both public encoders; fixed enumeration",
+    );
+    let mut size_cases: Vec<SizeCase> = Vec::new();
+    for k in [8u32, 12, 14, 15, 16, 17, 20] {
+        for d in [-2i64, -1, 0, 1, 2] {
+            let n = ((1i64 << k) + d) as usize;
+            for kind in ["simple", "error", "bulk"] {
+                size_cases.push(SizeCase { kind: kind.to_string(), n });
+            }
+            if k <= 16 {
+                size_cases.push(SizeCase { kind: "array".to_string(), n });
+            }
+        }
+    }
+    s.run_enumerated("size_classes", size_cases.into_iter(), |c, ctx| {
+        ctx.nontrivial(&(c.kind.clone(), c.n));
+        let v = match c.kind.as_str() {
+            "simple" => Reply::Simple(vec![b'a'; c.n]),
+            "error" => Reply::Error(vec![b'e'; c.n]),
+            "bulk" => Reply::Bulk(vec![0xabu8; c.n]),
+            _ => Reply::Array((0..c.n).map(|i| Reply::Int(i as i64 % 10)).collect()),
+        };
+        let mut enc = Vec::new();
+        v.encode(&mut enc);
+        // followed by a second frame: the stream must yield both
+        let mut stream = enc.clone();
+        stream.extend_from_slice(b"+PONG\r\n");
+        for (name, out) in [("RespCodec", run_codec(&enc)?.0), ("RespParser", run_parser(&enc)?.0)] {
+            if out != Out::Frame(v.clone(), enc.len()) {
+                return Err(format!(
+                    "{}: a complete {} frame of {} bytes ({} of length {}) does not decode to itself: {}",
+                    name, c.kind, enc.len(), c.kind, c.n,
+                    match out { Out::Frame(_, n) => format!("a frame of {} bytes", n), Out::NeedMore => "need more data".into(), Out::Error(e) => format!("error {}", e) }
+                ));
+            }
+        }
+        for cut in [1usize, enc.len() / 2, enc.len() - 1, enc.len(), enc.len() + 1] {
+            let frames = feed_fragments(&stream, &[cut.min(stream.len())])?;
+            if frames.len() != 2 || frames[0] != v {
+                return Err(format!(
+                    "stream of a {} frame (length {}) + PING reply cut at {}: decoded {} frames",
+                    c.kind, c.n, cut, frames.len()
+                ));
+            }
+        }
+        check_encoders(&v)
+    });
 
     // ---- (e) child-process cases
     let mut child_cases = Vec::new();
